@@ -11,6 +11,9 @@ NOTE = ("Trusted base: the Go type checker (go/types), go/packages loading of /r
 
 # id -> (technique, level text, design ref)
 CLAIMS = {
+ "C46": ("bounds-obligation discharge on the SSA form of stdlib/rlp (subtractive bound test dominating every sum of a decoded length, guard dominance for every index/slice of the input) + error/trailing-bytes dominance in the stdlib wrappers",
+         "Structural necessary conditions: no decoded length is added before being bounded by the remaining input, every index and slice of the input is dominated by its bound test, and the wrappers fail on decoder errors and trailing bytes on every path.",
+         "DESIGN.md §4 C46"),
  "C02": ("path-sensitive must-pass-through on the SSA CFG of Transfer/Destroy under assumed values of IsResourceKinded/remove + census of resource-loss guards",
          "Structural necessary conditions: a resource-kinded transfer always clears its source, Destroy always destroys nested values under the double-destruction guard and marks/clears the value, and every slot overwrite keeps its resource-loss check.",
          "DESIGN.md §4 C02"),
